@@ -171,8 +171,18 @@ def make_state(case, contracts=()):
     return RecWindowState(st_[1], st_[2], st_[3])
 
 
+class TurnoverReward(RW.AbstractReward):
+    """A user-defined reward that never values the account: minus the number of trades of the last execution."""
+
+    def calculate(self, env):
+        tr = env.broker.track_record
+        return -float(len(tr[-1].trades)) if len(tr) else 0.0
+
+
 def make_reward(spec, by_name=False):
     kind = spec[0]
+    if kind == "custom":
+        return TurnoverReward()
     if by_name and kind in ("simple", "log", "pnl"):
         # the documented shortcut: the reward given as the name of a class of tradingenv.rewards
         return {"simple": "RewardSimpleReturn", "log": "RewardLogReturn", "pnl": "RewardPnL"}[kind]
